@@ -33,10 +33,10 @@ theorem afterFetch_abs (c : Cfg) (hc : IsDev c) (t : Tbl) (s : St) :
 opcode at PC. -/
 theorem step_sem (c : Cfg) (hc : IsDev c) (t : Tbl) (v : Variant) (s : St) (hs : WF c s)
     (hw : s.waiting = false) (mn : Mn) (mo : Mode)
-    (hd : decode v (s.mem s.pc) = some (mn, mo))
-    (hi : HandlerOK c v (t.instruct (s.mem s.pc)) mn mo) :
+    (hd : decode v (s.mem s.pc) = some (mn, mo)) (P : St → Prop) (hP : P (afterFetch c t s))
+    (hi : HandlerOKp c v (t.instruct (s.mem s.pc)) mn mo P) :
     abs (Mpu6502.step c t s) = Spec.step c.BYTE_WIDTH v (abs s) := by
-  have h1 := hi (afterFetch c t s) (afterFetch_WF c hc t s hs)
+  have h1 := hi (afterFetch c t s) (afterFetch_WF c hc t s hs) hP
   rw [afterFetch_abs c hc] at h1
   have e : (abs s).mem (abs s).pc = s.mem s.pc := rfl
   have ew : (abs s).waiting = false := hw
